@@ -26,9 +26,10 @@ def sym_attrs(ex, base="in", n=None, D=None):
     rf = ctx.func(f"row_{base}", I, Mono)
     cf = ctx.func(f"C_{base}", I, Idx, R)
     shape = ctx.const(f"shape_{base}", Shp)
-    dt = ctx.const(f"dtype_{base}", DT)
+    dtf = ctx.func(f"dtype_{base}", I, DT)          # every coefficient array may carry its own dtype
+    dt = lambda t: dtf(t)
     E = ExpMat(n, D, lambda t: rf(t), Region("caller", "exponents"), dt_int)
-    C = V.Seq(n, lambda t: in_arr(ctx, shape, cf, dt, t, base), "list")
+    C = V.Seq(n, lambda t: in_arr(ctx, shape, cf, dt(t), t, base), "list")
     return E, C, (n, D, rf, cf, shape, dt)
 
 
@@ -87,7 +88,7 @@ class RemoveRedundantCoefficients(Contract):
                 ex.oblige("post.empty.single_coefficient", z3.BoolVal(okc), "post")
                 if okc:
                     ex.oblige("post.empty.zero_coefficient_same_shape_dtype",
-                              z3.And(C2[0].shape == shape, C2[0].dtype == dt,
+                              z3.And(C2[0].shape == shape, C2[0].dtype == dt(0),
                                      ctx.forall_idx(lambda i: C2[0].elem(i) == 0, shape)), "post")
                 return
             flt = getattr(ex, "last_filter", None)
@@ -99,7 +100,7 @@ class RemoveRedundantCoefficients(Contract):
             ex.oblige("post.kept.lengths", z3.And(E2.n == M, C2.n == M, E2.D == D, M >= 1), "post")
             ex.oblige("post.kept.rows_and_coefficients_are_the_selected_ones", ctx.forall_range(0, M, lambda j: z3.And(
                 0 <= sel(j), sel(j) < n, E2.row(j) == rf(sel(j)),
-                C2.item(j).shape == shape, C2.item(j).dtype == dt,
+                C2.item(j).shape == shape, C2.item(j).dtype == dt(sel(j)),
                 ctx.forall_idx(lambda i: C2.item(j).elem(i) == cf(sel(j), i), shape))), "post")
             ex.oblige("post.kept.only_terms_satisfying_rule", ctx.forall_range(0, M, lambda j: rule(sel(j))), "post",
                       note="an all-zero non-constant term must not be kept")
@@ -119,7 +120,7 @@ class RemoveRedundantCoefficients(Contract):
         ex.oblige(f"pre({site}).same_length", Cs.n == E.n, "precondition", node)
         ex.oblige(f"pre({site}).nonempty", E.n >= 1, "precondition", node)
         c0 = Cs.item(z3.IntVal(0))
-        shape, dt, D, n = c0.shape, c0.dtype, E.D, E.n
+        shape, D, n = c0.shape, E.D, E.n
         rule = lambda t: z3.Or(z3.Not(ctx.forall_idx(lambda i: Cs.item(t).elem(i) == 0, shape)), mzero(E.row(t), D))
         anykept = z3.Not(ctx.forall_range(0, n, lambda t: z3.Not(rule(t))))
         M = ctx.int("M")
@@ -135,7 +136,8 @@ class RemoveRedundantCoefficients(Contract):
         def item2(j):
             from engine.polymodel import FlagsV
             srcarr = Cs.item(sel(j))
-            a = Arr(shape, lambda i, j=j: z3.If(M >= 1, Cs.item(sel(j)).elem(i), z3.RealVal(0)), "real", dt, Region("fresh"),
+            a = Arr(shape, lambda i, j=j: z3.If(M >= 1, Cs.item(sel(j)).elem(i), z3.RealVal(0)), "real",
+                    z3.If(M >= 1, srcarr.dtype, c0.dtype), Region("fresh"),
                     (lambda i, j=j: z3.Or(M < 1, Cs.item(sel(j)).init(i))))
             fl = srcarr.sx_getattr(ex, "flags", node)
             a._flags = FlagsV(None, z3.If(M >= 1, fl.c_contiguous, True), z3.If(M >= 1, fl.writeable, True))
@@ -393,7 +395,7 @@ class PostprocessAttributes(Contract):
             ctx.assume(ncoef >= 1)
         ex.ncoef = ncoef
         cf, shape, dt = sym[3], sym[4], sym[5]
-        Cin = V.Seq(ncoef, lambda t: in_arr(ctx, shape, cf, dt, t), "list")
+        Cin = V.Seq(ncoef, lambda t: in_arr(ctx, shape, cf, dt(t), t), "list")
         nm = ctx.const("names_in", Names)
         ex.names_in = nm
         names = {"none": None, "tuple": NamesV(nm)}[names_kind]
@@ -664,8 +666,8 @@ class PolynomialFromAttributes(Contract):
             return
         Cs = V.as_seq(ex, C2)
         ex.oblige("post.shape", p.shape == shape, "post")
-        ex.oblige("post.dtype", p.dtype == (ex.dtype_arg if ex.dtype_arg is not None else dt), "post",
-                  note="requested dtype, else the dtype of the coefficient data")
+        ex.oblige("post.dtype", p.dtype == (ex.dtype_arg if ex.dtype_arg is not None else Cs.item(z3.IntVal(0)).dtype), "post",
+                  note="requested dtype, else the dtype of the first coefficient array")
         ex.oblige("post.every_coefficient_defined", ctx.forall_range(0, p.N, lambda t: ctx.forall_idx(
             lambda i: p.init(t, i), p.shape)), "post", note="C12: no uninitialised memory is returned")
         ex.oblige("post.coefficient_values", ctx.forall_range(0, p.N, lambda t: ctx.forall_idx(
